@@ -82,10 +82,17 @@ impl EnabledCompressionEncodings {
     pub fn into_accept_encoding_header_value(self) -> (r: Option<http::HeaderValue>)
         ensures r is None <==> self.none_enabled(), r matches Some(v) ==> v@ == self.accept_value()
     { unimplemented!() }
-    // proved by kani::cfg_enable: the encoding is enabled afterwards, no other encoding changes
+    // reachable configurations: a packed prefix without duplicates (what Default + enable/pop can build)
+    pub open spec fn wf(&self) -> bool {
+        let s = self.inner@;
+        (s[0] is Some || s[1] is None) && (s[1] is Some || s[2] is None) && (s[0] is None || (s[0] != s[1] && s[0] != s[2])) && (s[1] is None || s[1] != s[2])
+    }
+    // proved by kani::cfg_enable (all reachable slot states x all encodings): well-formedness is kept, the encoding is enabled
+    // afterwards, no other encoding changes
     #[verifier::external_body]
     pub fn enable(&mut self, encoding: CompressionEncoding)
-        ensures final(self).enabled(encoding) || (forall|e: CompressionEncoding| e != encoding ==> old(self).enabled(e)),
+        requires old(self).wf()
+        ensures final(self).wf(), final(self).enabled(encoding),
             forall|e: CompressionEncoding| e != encoding ==> (final(self).enabled(e) == old(self).enabled(e)),
     { unimplemented!() }
 }
@@ -314,7 +321,28 @@ def build():
     { unimplemented!() }
 }
 ''')
+    u.raw('''impl EnabledCompressionEncodings {
+    // A-derive-03: #[derive(Default)] on EnabledCompressionEncodings: every slot None
+    #[verifier::external_body]
+    pub fn default() -> (r: Self) ensures r.none_enabled(), r.wf() { unimplemented!() }
+}
+''')
     u._emit('impl<T> Grpc<T> {'); u._open_header = 'impl<T> Grpc<T> {'
+    CF = ['C05', 'C06', 'C02']
+    u.fn(G, 'with_origin', within='impl<T> Grpc<T>', props=CF,
+         ensures=[Clause('G1_fresh_client_compresses_nothing_accepts_nothing_and_has_no_limits',
+                         'r.inner == inner && r.config.origin == origin && r.config.send_compression_encodings is None && r.config.accept_compression_encodings.none_enabled() && r.config.accept_compression_encodings.wf() && r.config.max_decoding_message_size is None && r.config.max_encoding_message_size is None')])
+    u.fn(G, 'send_compressed', within='impl<T> Grpc<T>', props=CF,
+         ensures=[Clause('G2_send_encoding_is_the_one_given_nothing_else_changes',
+                         'r.config.send_compression_encodings == Some(encoding) && r.config.accept_compression_encodings == self.config.accept_compression_encodings && r.config.origin == self.config.origin && r.config.max_decoding_message_size == self.config.max_decoding_message_size && r.config.max_encoding_message_size == self.config.max_encoding_message_size && r.inner == self.inner')])
+    u.fn(G, 'accept_compressed', within='impl<T> Grpc<T>', props=CF,
+         requires=['self.config.accept_compression_encodings.wf()'],
+         ensures=[Clause('G3_accept_set_gains_exactly_that_encoding_send_side_untouched',
+                         'r.config.accept_compression_encodings.wf() && r.config.accept_compression_encodings.enabled(encoding) && (forall|e: CompressionEncoding| e != encoding ==> r.config.accept_compression_encodings.enabled(e) == self.config.accept_compression_encodings.enabled(e)) && r.config.send_compression_encodings == self.config.send_compression_encodings && r.config.origin == self.config.origin && r.config.max_decoding_message_size == self.config.max_decoding_message_size && r.config.max_encoding_message_size == self.config.max_encoding_message_size && r.inner == self.inner')])
+    u.fn(G, 'max_decoding_message_size', within='impl<T> Grpc<T>', props=CF,
+         ensures=[Clause('G4_decoding_limit_only', 'r.config.max_decoding_message_size == Some(limit) && r.config.max_encoding_message_size == self.config.max_encoding_message_size && r.config.send_compression_encodings == self.config.send_compression_encodings && r.config.accept_compression_encodings == self.config.accept_compression_encodings && r.inner == self.inner')])
+    u.fn(G, 'max_encoding_message_size', within='impl<T> Grpc<T>', props=CF,
+         ensures=[Clause('G5_encoding_limit_only', 'r.config.max_encoding_message_size == Some(limit) && r.config.max_decoding_message_size == self.config.max_decoding_message_size && r.config.send_compression_encodings == self.config.send_compression_encodings && r.config.accept_compression_encodings == self.config.accept_compression_encodings && r.inner == self.inner')])
     u.fn(G, 'create_response', within='impl<T> Grpc<T>',
          sig_edits=[lambda t: t.sub_code('R12', r'fn create_response<M2>\(', 'fn create_response<M2, D, RB>('),
                     lambda t: t.sub_code('R12', r"decoder: impl Decoder<Item = M2, Error = Status> \+ Send \+ 'static", 'decoder: D'),
